@@ -13,8 +13,9 @@ use snel_harness::rng::Rng;
 use snel_harness::sys::SysCfg;
 use types::*;
 
-/// `into_partial` can lose one of two sink groups only when there is no grouping and, inside
-/// one flow, some batch takes the columnar path and another does not.
+/// Does some flow take both sink paths (a batch on the columnar path and one on the row path,
+/// no grouping)? Until repo commit 829ebe3 `into_partial` lost one of the two sink groups there
+/// (finding C09-columnar-split, fixed); kept as a tally so the evidence shows the case is hit.
 pub fn split_possible(p: &PlanSpec, flows: &Flows) -> bool {
     if p.has_grouping() {
         return false;
@@ -87,15 +88,9 @@ async fn stream_flow(a: &snel_harness::out::Args, root: &std::path::Path) {
             };
             let nontrivial = table.as_ref().is_some_and(|t| !t.is_empty());
             if split {
-                s.tally("split-possible");
-                s.case(
-                    &format!("flowin {}{} RESULT {}", case.plan.header(), body_tokens(flows), line),
-                    "in",
-                    nontrivial,
-                );
-            } else {
-                s.case(&format!("flow {}{}", case.plan.header(), body_tokens(flows)), &line, nontrivial);
+                s.tally("flow-takes-both-sink-paths");
             }
+            s.case(&format!("flow {}{}", case.plan.header(), body_tokens(flows)), &line, nontrivial);
             if pi == 0 {
                 tally_case(&mut s, &case, flows);
             }
@@ -106,23 +101,19 @@ async fn stream_flow(a: &snel_harness::out::Args, root: &std::path::Path) {
     s.finish();
 }
 
-/// Fixed minimal witnesses of every finding class: exact correspondence, and the oracle must
-/// name exactly the class.
+/// Fixed minimal cases: witnesses of every open finding class (exact correspondence, and the
+/// oracle must name exactly the class) and regression cases of repaired findings (class "" = the
+/// property must hold; a recurrence is reported with class `-`).
 async fn stream_witness(a: &snel_harness::out::Args, root: &std::path::Path) {
     let env = real::Env::new(root);
     let mut s = Stream::create(&a.out, "witness");
     for (i, w) in witness::all().iter().enumerate() {
         let res = real::run_real(&env, &w.plan, &w.flows).await;
-        let split = split_possible(&w.plan, &w.flows);
         let line = match &res {
             Ok(t) => table_line(t),
             Err(_) => "err".to_string(),
         };
-        if split {
-            s.case(&format!("flowin {}{} RESULT {}", w.plan.header(), body_tokens(&w.flows), line), "in", true);
-        } else {
-            s.case(&format!("flow {}{}", w.plan.header(), body_tokens(&w.flows)), &line, true);
-        }
+        s.case(&format!("flow {}{}", w.plan.header(), body_tokens(&w.flows)), &line, true);
         let case = witness::as_case(w);
         let got = match &res {
             Ok(t) => oracle::classify(&case, &w.flows, t),
